@@ -11,8 +11,13 @@ package config
 //@   props C08 C03 C04
 //@   frame @C08,C03
 //@   ensures @C08 err == nil ==> res != nil
-//@   ensures @C08 err == nil ==> seq(res.Extensions) == tail(old(seq(content.Extensions)), sO(run(old(seq(profile.Extensions)), old(seq(content.Extensions)), 0, entry(1, mkst(seq(certExtsHandled), seq(certExtsOverridden), seq(newExt))))), 0, sOut(run(old(seq(profile.Extensions)), old(seq(content.Extensions)), 0, entry(1, mkst(seq(certExtsHandled), seq(certExtsOverridden), seq(newExt))))))
+//@   ghostret INIT St = entry(1, mkst(seq(certExtsHandled), seq(certExtsOverridden), seq(newExt)))
+//@   ensures @C08 vlen(sH(INIT)) == 0 && vlen(sO(INIT)) == 0 && vlen(sOut(INIT)) == 0
+//@   ensures @C08 err == nil ==> seq(res.Extensions) == tail(old(seq(content.Extensions)), sO(run(old(seq(profile.Extensions)), old(seq(content.Extensions)), 0, INIT)), 0, sOut(run(old(seq(profile.Extensions)), old(seq(content.Extensions)), 0, INIT)))
 //@   ensures @C08 err != nil ==> res == nil
+//@   ensures @C03 err == nil ==> res.Subject == content.Subject && res.SerialNumber == content.SerialNumber && res.IssuerUniqueId == content.IssuerUniqueId && res.SubjectUniqueId == content.SubjectUniqueId && res.Issuer == content.Issuer && res.Alias == content.Alias && res.Profile == content.Profile && res.KeyAlgorithm == content.KeyAlgorithm && res.SignatureAlgorithm == content.SignatureAlgorithm && res.Manipulations == content.Manipulations
+//@   ensures @C04 err == nil ==> res.Validity == (if !content.Validity.IsSet && profile.Validity.IsSet then profile.Validity else content.Validity)
+//@   ensures err == nil ==> fresh(res)
 //@   loop 1
 //@     invariant 0 <= idx && idx <= len(profile.Extensions)
 //@     invariant @C08 run(old(seq(profile.Extensions)), old(seq(content.Extensions)), idx, mkst(seq(certExtsHandled), seq(certExtsOverridden), seq(newExt))) == run(old(seq(profile.Extensions)), old(seq(content.Extensions)), 0, entry(mkst(seq(certExtsHandled), seq(certExtsOverridden), seq(newExt))))
@@ -46,3 +51,47 @@ package config
 //@ lemma hash_sensitive_static_validity @C13
 //@   uses hashlemmas.smt2
 //@   goal (forall ((a S_config_CertificateContent) (b S_config_CertificateContent)) (=> (and (vIsStatic a) (vIsSet a) (= (blankV a) (blankV b))) (and (= (vFrom a) (vFrom b)) (= (vUntil a) (vUntil b)))))
+
+// ---- subject attribute names (C03) and profile subject constraints (C09)
+
+//@ func tables
+//@   props C03 C09
+//@   uses names.smt2
+//@   ensures @C03,C09 forall n string :: has(attributeTypeNames, n) <==> isShort(n)
+//@   ensures @C03,C09 forall n string :: has(attributeTypeNames, n) ==> oidv(attributeTypeNames[n]) == shortOid(n)
+
+//@ func GetRdnAttributeOid returns (oid, err)
+//@   props C03 C09
+//@   uses names.smt2
+//@   given forall n string :: has(attributeTypeNames, n) <==> isShort(n)
+//@   given forall n string :: has(attributeTypeNames, n) ==> oidv(attributeTypeNames[n]) == shortOid(n)
+//@   ensures @C03,C09 (err == nil) <==> isShort(attr)
+//@   ensures @C03,C09 err == nil ==> oidv(oid) == shortOid(attr)
+
+// Validate: accepted iff the profile has no attribute list, or every listed attribute resolves, the subject types
+// (written order) are an in-order selection of the list unless allowOther, and every non-optional attribute is present.
+//@ func Validate returns (res)
+//@   props C09 C03
+//@   uses validate.smt2
+//@   frame @C03,C09
+//@   bounded TestVerifBoundedValidate
+//@   let P = old(seq(profile.SubjectAttributes.Attributes))
+//@   let SJ = old(seq(content.Subject))
+//@   requires forall k in [0, len(content.Subject)) :: len(content.Subject[k]) >= 1
+//@   ensures @C09 res == (profile.SubjectAttributes.Attributes == nil || (resFrom(P, 0) && (profile.SubjectAttributes.AllowOther || sub(P, SJ, 0, 0)) && req(P, SJ, 0)))
+//@   loop 1
+//@     invariant 0 <= idx && idx <= len(attrs)
+//@     invariant @C09 forall k in [0, idx) :: resolvable(P, k) && oidv(wantOids[k]) == profT(P, k)
+//@     invariant @C09 resFrom(P, idx) == resFrom(P, 0)
+//@   loop 2
+//@     invariant 0 <= have && have <= numHave && 0 <= want && want <= len(wantOids)
+//@     invariant @C09 sub(P, SJ, have, want) == sub(P, SJ, 0, 0)
+//@   loop 3
+//@     invariant 0 <= have && have < numHave && 0 <= want && want <= len(wantOids)
+//@     invariant @C09 sub(P, SJ, have, want) == sub(P, SJ, 0, 0)
+//@   loop 4
+//@     invariant 0 <= idx && idx <= len(attrs)
+//@     invariant @C09 req(P, SJ, idx) == req(P, SJ, 0)
+//@   loop 5
+//@     invariant 0 <= have && have <= numHave
+//@     invariant @C09 memS(SJ, profT(P, i), have) == memS(SJ, profT(P, i), 0)
